@@ -455,7 +455,8 @@ pub fn run(tier: Tier, shard: Shard, rep: &mut Report) {
          not a write and must not use up the window); fresh-key writes while .kismet_temp cannot be listed (it is a regular file): \
          the firing writes report the error but the directory is still pruned on schedule; fresh-key writes for capacities 0..=12 with the \
          directory named in 8 ways (absolute, relative, '.', the empty path, './cache/', 'cache//', 'cache/.', '../cache'); capacities 2^63, 3*2^62, usize::MAX-2..=usize::MAX: small draws fire at the first write, 2^64-1 with 1000 writes never \
-         panics. Every case is distinct.",
+         panics. Every case is distinct. (4) One writer at capacity 2, 3, 5 over an over-full directory racing with an outsider that \
+         deletes the oldest, a middle or the newest entry (all schedules with <= 2 preemptions): the bound holds after the write.",
         kmax, smallk, seqlen, kmax
     );
     rep.assumptions = vec![
@@ -558,8 +559,75 @@ pub fn run(tier: Tier, shard: Shard, rep: &mut Report) {
         rep.sample(Case::Trigger { k: 9, start: 0, script: vec![scale(9) as u64 * 3 - 1] }.to_json());
     }
     let _: Option<&Path> = None;
+    run::reset_env();
+    concurrent(shard, rep);
+}
+
+/// The bound with an outsider deleting entries while the single writer maintains (a deleter is not a
+/// writer: what it removes can only help): after the write the directory holds <= k + max(1, k/3) files.
+fn concurrent_programs() -> Vec<(crate::sched::Program, crate::props::e1::Mode, usize)> {
+    use crate::ops::Op;
+    use crate::props::e1::{self, api, planted, Mode};
+    use crate::sched::POp;
+    use crate::world::{Size, Val};
+    let m = crate::ops::key_for_shards("m", 0, 1, 2);
+    let mut out = Vec::new();
+    for (k, npre) in [(2usize, 5usize), (3, 6), (5, 8)] {
+        let pre: Vec<crate::sched::Planted> = (0..npre).map(|i| planted(&format!("x{}", i), Val::new(10 + i as u8, Size::One), i % 3 == 1, 20 - i as i64)).collect();
+        for (name, victim) in [("oldest", 0usize), ("middle", npre / 2), ("newest", npre - 1)] {
+            for set in [true, false] {
+                let v = e1::wval(0, 0, Size::One);
+                let w = if set { Op::Set(m.clone(), v) } else { Op::Put(m.clone(), v) };
+                out.push((
+                    crate::sched::Program {
+                        name: format!("growth-k{}n{}-{}|deleter-{}", k, npre, if set { "set" } else { "put" }, name),
+                        cfg: e1::plain_cfg(k),
+                        pre: pre.clone(),
+                        threads: e1::own_handles(vec![vec![api(w)], vec![POp::Unlink(format!("x{}", victim))]], true),
+                        create_write_dir: true,
+                    },
+                    Mode::Bounded(2),
+                    k,
+                ));
+            }
+        }
+    }
+    out
+}
+
+fn concurrent_check(x: &crate::sched::Execution, k: usize) -> Vec<(String, String)> {
+    let mut bad = Vec::new();
+    if x.history.iter().any(|r| r.outcome.res.is_err() || r.outcome.res.is_panic()) {
+        return bad; // C05's business
+    }
+    let n = x
+        .final_snapshot
+        .iter()
+        .filter(|(rel, n)| n.kind == 'f' && rel.starts_with("w/") && !rel[2..].contains('/') && !rel[2..].starts_with('.'))
+        .count();
+    let p = period(k as u128) as usize;
+    if n > k + p {
+        bad.push(("too-many-files".into(), format!("capacity {}: {} files after the write although only a deleter ran beside it (bound {})", k, n, k + p)));
+    }
+    bad
+}
+
+fn concurrent(shard: Shard, rep: &mut Report) {
+    let all = concurrent_programs();
+    let progs: Vec<(crate::sched::Program, crate::props::e1::Mode)> = all.iter().map(|p| (p.0.clone(), p.1)).collect();
+    let mut chk = |pi: usize, x: &crate::sched::Execution| concurrent_check(x, all[pi].2);
+    crate::props::e1::explore_all("C10", &progs, shard, rep, &|_| crate::sched::RunOpts::default(), &mut chk, 500_000);
 }
 
 pub fn replay(case: &Value, rep: &mut Report) {
+    if case.get("program").is_some() {
+        let all = concurrent_programs();
+        let name = case["program"].as_str().unwrap_or("").to_string();
+        let k = all.iter().find(|p| p.0.name == name).map(|p| p.2).unwrap_or(0);
+        let progs: Vec<crate::sched::Program> = all.into_iter().map(|p| p.0).collect();
+        let mut chk = |x: &crate::sched::Execution| concurrent_check(x, k);
+        crate::props::e1::replay_case("C10", &progs, case, rep, &|| crate::sched::RunOpts::default(), &mut chk);
+        return;
+    }
     record(&Case::from_json(case), rep);
 }
